@@ -111,6 +111,153 @@ let show_res (f : 'a -> string) (r : 'a res) : string =
   | Panic s -> "panic " ^ ocaml_string s
   | OutOfFuel -> "oof"
 
+
+(* ---------- JSON-ish printing ---------- *)
+let jn (x : n) : string = "\"" ^ hex_of_n x ^ "\""
+let jz (x : z) : string = dec_of_z x
+let jb (b : bool) : string = if b then "true" else "false"
+let jl f l = "[" ^ String.concat "," (List.map f l) ^ "]"
+let jo f = function None -> "null" | Some x -> f x
+let jbytes (b : n list) : string = "\"" ^ (match b with [] -> "" | _ -> hex_of_bytes b) ^ "\""
+let jclass = function COk -> "\"ok\"" | CIo -> "\"io\"" | CData -> "\"data\"" | CPanic -> "\"panic\"" | COof -> "\"oof\""
+let jres f r = match r with
+  | Ok a -> "{\"r\":\"ok\",\"v\":" ^ f a ^ "}"
+  | Err EIo -> "{\"r\":\"io\"}"
+  | Err EData -> "{\"r\":\"data\"}"
+  | Err ENotFound -> "{\"r\":\"notfound\"}"
+  | Panic s -> "{\"r\":\"panic\",\"site\":\"" ^ ocaml_string s ^ "\"}"
+  | OutOfFuel -> "{\"r\":\"oof\"}"
+let jtables (t : tables) : string =
+  "{\"stsc\":" ^ jl (fun e -> "[" ^ jn e.sc_first_chunk ^ "," ^ jn e.sc_samples_per_chunk ^ "," ^ jn e.sc_sample_description_index ^ "]") t.t_stsc
+  ^ ",\"stsz\":[" ^ jn t.t_stsz_size ^ "," ^ jn t.t_stsz_count ^ "," ^ jl jn t.t_stsz_sizes ^ "]"
+  ^ ",\"stco\":" ^ jo (jl jn) t.t_stco ^ ",\"co64\":" ^ jo (jl jn) t.t_co64
+  ^ ",\"stts\":" ^ jl (fun (c, d) -> "[" ^ jn c ^ "," ^ jn d ^ "]") t.t_stts
+  ^ ",\"ctts\":" ^ jo (jl (fun (c, o) -> "[" ^ jn c ^ "," ^ jz o ^ "]")) t.t_ctts
+  ^ ",\"stss\":" ^ jo (jl jn) t.t_stss ^ "}"
+
+(* ---------- parsing of case lines ---------- *)
+let mode_of = function "d" -> Dbg | _ -> Rel
+let split c s = if s = "-" || s = "" then [] else String.split_on_char c s
+let nlist s = List.map n_of_hex (split ',' s)
+let blob_of (s : string) : n list =
+  if String.length s > 0 && s.[0] = '@' then begin
+    match String.split_on_char ':' (String.sub s 1 (String.length s - 1)) with
+    | [fill; len; step] ->
+      let fill = int_of_string fill and len = int_of_string len and step = int_of_string step in
+      List.init len (fun i -> byte_tab.((fill + i * step) land 255))
+    | _ -> failwith "blob"
+  end else bytes_of_hex s
+
+let rec parse_ops (toks : string list) : mux_op list =
+  match toks with
+  | [] -> []
+  | "A" :: "avc" :: tt :: ts :: lang :: w :: h :: sps :: pps :: rest ->
+    OpAddTrack { tc_track_type = coq_string tt; tc_timescale = n_of_hex ts; tc_language = bytes_of_hex lang;
+                 tc_media = AvcConf (n_of_hex w, n_of_hex h, bytes_of_hex sps, bytes_of_hex pps) } :: parse_ops rest
+  | "A" :: "hevc" :: tt :: ts :: lang :: w :: h :: rest ->
+    OpAddTrack { tc_track_type = coq_string tt; tc_timescale = n_of_hex ts; tc_language = bytes_of_hex lang;
+                 tc_media = HevcConf (n_of_hex w, n_of_hex h) } :: parse_ops rest
+  | "A" :: "vp9" :: tt :: ts :: lang :: w :: h :: rest ->
+    OpAddTrack { tc_track_type = coq_string tt; tc_timescale = n_of_hex ts; tc_language = bytes_of_hex lang;
+                 tc_media = Vp9Conf (n_of_hex w, n_of_hex h) } :: parse_ops rest
+  | "A" :: "aac" :: tt :: ts :: lang :: br :: p :: f :: c :: rest ->
+    OpAddTrack { tc_track_type = coq_string tt; tc_timescale = n_of_hex ts; tc_language = bytes_of_hex lang;
+                 tc_media = AacConf (n_of_hex br, coq_string p, coq_string f, coq_string c) } :: parse_ops rest
+  | "A" :: "ttxt" :: tt :: ts :: lang :: rest ->
+    OpAddTrack { tc_track_type = coq_string tt; tc_timescale = n_of_hex ts; tc_language = bytes_of_hex lang;
+                 tc_media = TtxtConf } :: parse_ops rest
+  | "W" :: tid :: dur :: cts :: sync :: b :: rest ->
+    OpWrite (n_of_hex tid, { ws_duration = n_of_hex dur; ws_rendering_offset = z_of_dec cts;
+                             ws_is_sync = (sync = "1"); ws_bytes = blob_of b }) :: parse_ops rest
+  | t :: _ -> failwith ("bad op token " ^ t)
+
+let parse_tables (toks : string list) : tables =
+  let get k = try let p = k ^ "=" in
+      let t = List.find (fun s -> String.length s >= String.length p && String.sub s 0 (String.length p) = p) toks in
+      Some (String.sub t (String.length p) (String.length t - String.length p))
+    with Not_found -> None in
+  let req k = match get k with Some v -> v | None -> failwith ("missing " ^ k) in
+  let pairs s = List.map (fun e -> match String.split_on_char ':' e with [a; b] -> (a, b) | _ -> failwith "pair") (split ',' s) in
+  let stsc = List.map (fun e -> match String.split_on_char ':' e with
+      | [a; b; c] -> { sc_first_chunk = n_of_hex a; sc_samples_per_chunk = n_of_hex b; sc_sample_description_index = n_of_hex c; sc_first_sample = N0 }
+      | _ -> failwith "stsc") (split ',' (req "stsc")) in
+  let stsz = req "stsz" in
+  let (ssize, scount, sizes) = match String.split_on_char ':' stsz with
+    | [a; b; c] -> (n_of_hex a, n_of_hex b, nlist c) | [a; b] -> (n_of_hex a, n_of_hex b, []) | _ -> failwith "stsz" in
+  { t_stsc = stsc; t_stsz_size = ssize; t_stsz_count = scount; t_stsz_sizes = sizes;
+    t_stco = (match get "stco" with Some v -> Some (nlist v) | None -> None);
+    t_co64 = (match get "co64" with Some v -> Some (nlist v) | None -> None);
+    t_stts = List.map (fun (a, b) -> (n_of_hex a, n_of_hex b)) (pairs (req "stts"));
+    t_ctts = (match get "ctts" with Some v -> Some (List.map (fun (a, b) -> (n_of_hex a, z_of_dec b)) (pairs v)) | None -> None);
+    t_stss = (match get "stss" with Some v -> Some (nlist v) | None -> None) }
+
+let jsample (s : sample) = "{\"start\":" ^ jn s.sm_start_time ^ ",\"dur\":" ^ jn s.sm_duration ^ ",\"cts\":" ^ jz s.sm_rendering_offset
+                           ^ ",\"sync\":" ^ jb s.sm_is_sync ^ ",\"bytes\":" ^ jbytes s.sm_bytes ^ "}"
+
+let cmd_mux (toks : string list) : string =
+  match toks with
+  | md :: base :: major :: minor :: ts :: brands :: ops ->
+    let cfg = { mc_major_brand = n_of_hex major; mc_minor_version = n_of_hex minor;
+                mc_compatible_brands = nlist brands; mc_timescale = n_of_hex ts } in
+    let r = run_mux (mode_of md) (n_of_hex base) cfg (parse_ops ops) in
+    jres (fun (cls, f) ->
+        "{\"st\":" ^ jl jclass cls ^ ",\"out\":" ^ jbytes f.mf_out ^ ",\"mdat_pos\":" ^ jn f.mf_mdat_pos
+        ^ ",\"mdat_size\":" ^ jn f.mf_mdat_size
+        ^ ",\"mvhd\":[" ^ jn f.mf_mvhd_timescale ^ "," ^ jn f.mf_mvhd_duration ^ "," ^ jn f.mf_mvhd_version ^ "]"
+        ^ ",\"tracks\":" ^ jl (fun t ->
+            "{\"id\":" ^ jn t.tf_track_id ^ ",\"tables\":" ^ jtables t.tf_tables
+            ^ ",\"hdr\":[" ^ jn t.tf_hdr.wh_mdhd_duration ^ "," ^ jn t.tf_hdr.wh_mdhd_version ^ ","
+            ^ jn t.tf_hdr.wh_tkhd_duration ^ "," ^ jn t.tf_hdr.wh_tkhd_version ^ "]"
+            ^ ",\"max\":" ^ jn t.tf_max_sample_size ^ "}") f.mf_tracks ^ "}") r
+  | _ -> "EXN mux args"
+
+let cmd_isofile (toks : string list) : string =
+  match toks with
+  | [base; data; expect] ->
+    let base = n_of_hex base in
+    let data = bytes_of_hex data in
+    let exp = List.map (fun e -> match String.split_on_char ':' e with [a; b] -> (n_of_hex a, n_of_hex b) | _ -> failwith "expect") (split ',' expect) in
+    let chk = iso_check_file base exp data in
+    (match iso_file base data with
+     | None -> "{\"parse\":false,\"check\":" ^ jb chk ^ "}"
+     | Some f ->
+       "{\"parse\":true,\"check\":" ^ jb chk
+       ^ ",\"mvhd\":[" ^ jn f.if_mvhd_version ^ "," ^ jn f.if_mvhd_timescale ^ "," ^ jn f.if_mvhd_duration ^ "]"
+       ^ ",\"mdat\":" ^ jl (fun b -> "[" ^ jn b.ib_off ^ "," ^ jn b.ib_hdr ^ "," ^ jn b.ib_size ^ "]") f.if_mdat
+       ^ ",\"top\":" ^ jl (fun b -> "[" ^ jn b.ib_type ^ "," ^ jn b.ib_off ^ "," ^ jn b.ib_size ^ "]") f.if_top
+       ^ ",\"tracks\":" ^ jl (fun t ->
+           "{\"id\":" ^ jn t.it_track_id ^ ",\"tkhd\":[" ^ jn t.it_tkhd_version ^ "," ^ jn t.it_tkhd_duration ^ "," ^ jn t.it_width ^ "," ^ jn t.it_height ^ "]"
+           ^ ",\"mdhd\":[" ^ jn t.it_mdhd_version ^ "," ^ jn t.it_timescale ^ "," ^ jn t.it_mdhd_duration ^ "," ^ jn t.it_language ^ "]"
+           ^ ",\"handler\":" ^ jn t.it_handler ^ ",\"entry_type\":" ^ jn t.it_entry_type ^ ",\"entry\":" ^ jbytes t.it_entry
+           ^ ",\"tables\":" ^ jtables t.it_tables ^ "}") f.if_tracks ^ "}")
+  | _ -> "EXN isofile args"
+
+(* lookup <mode> <datahex|-> ids=<a,b,..> stsc=.. stsz=.. [stco=..|co64=..] stts=.. [ctts=..] [stss=..] *)
+let cmd_lookup (toks : string list) : string =
+  match toks with
+  | md :: data :: rest ->
+    let m = mode_of md in
+    let tb = parse_tables rest in
+    let ids = match List.find_opt (fun s -> String.length s > 4 && String.sub s 0 4 = "ids=") rest with
+      | Some s -> nlist (String.sub s 4 (String.length s - 4)) | None -> [] in
+    let data = bytes_of_hex data in
+    let cons = consistent tb in
+    let tr = match derive_first_samples tb.t_stsc (n_of_int 1) with
+      | Some es -> Some { tr_id = n_of_int 1; tr_tables = { tb with t_stsc = es }; tr_frags = []; tr_default_sample_duration = N0 }
+      | None -> None in
+    (match tr with
+     | None -> "{\"consistent\":" ^ jb cons ^ ",\"derive\":false}"
+     | Some t ->
+       "{\"consistent\":" ^ jb cons ^ ",\"derive\":true,\"count\":" ^ jn (sample_count t)
+       ^ ",\"ids\":" ^ jl (fun k ->
+           let (r, _) = run (read_sample m t k) (stream_at data N0) in
+           "{\"k\":" ^ jn k ^ ",\"off\":" ^ jres jn (sample_offset m t k)
+           ^ ",\"rs\":" ^ jres (jo jsample) r
+           ^ ",\"spec\":{\"off\":" ^ jo jn (spec_offset tb k) ^ ",\"size\":" ^ jo jn (spec_size tb k)
+           ^ ",\"delta\":" ^ jo jn (spec_delta tb k) ^ ",\"start\":" ^ jn (spec_start tb k)
+           ^ ",\"cts\":" ^ jo jz (spec_cts tb k) ^ ",\"sync\":" ^ jb (spec_sync tb k) ^ "}}") ids ^ "}")
+  | _ -> "EXN lookup args"
+
 (* ---------- commands ---------- *)
 let handle (line : string) : string =
   match String.split_on_char ' ' line with
@@ -147,6 +294,9 @@ let handle (line : string) : string =
       q "handlers" ^ ":" ^ lst (fun (k, h) -> "[" ^ q (ocaml_string k) ^ "," ^ q (ocaml_string h) ^ "," ^ string_of_int (int_of_n (cc h)) ^ "]") iso_handlers;
       q "media" ^ ":" ^ lst (fun (k, h) -> "[" ^ q (ocaml_string k) ^ "," ^ q (ocaml_string h) ^ "]") iso_media;
       q "avc" ^ ":" ^ q (Buffer.contents avc) ] ^ "}"
+  | "mux" :: rest -> cmd_mux rest
+  | "isofile" :: rest -> cmd_isofile rest
+  | "lookup" :: rest -> cmd_lookup rest
   | ["ping"] -> "pong"
   | _ -> "EXN unknown command"
 
